@@ -21,6 +21,7 @@ def go_run(work, scenarios, extra_files=()):
     if rc != 0 or not os.path.exists(out_path):
         return False, gout, []
     outs = read_jsonl(out_path)
+    note_panics(scenarios, outs)
     return len(outs) == len(scenarios), gout, outs
 
 
